@@ -44,7 +44,7 @@ ASSUMPTIONS = [
     "sampler ranges and periodic arguments are bounded by 1e100 / 1e30 in magnitude",
 ]
 QUICK = dict(cases=4000, workers=2, timecap=45)
-THOROUGH = dict(cases=400000, workers=16, timecap=600)
+THOROUGH = dict(cases=150000, workers=16, timecap=600)
 REQUIRED = {"received_exact": 5000, "received_computed": 1000, "value_exact": 5000, "vector_rotation": 500,
             "periodic_membership": 2000, "periodic_congruence": 2000, "mask_points": 1000,
             "sampler_entries": 5000, "sampler_grid": 1000}
@@ -355,7 +355,21 @@ def certify_simple(verts):
 
 def _poly_shape(rng):
     """unit-scale simple polygon candidates (certified later); returns (kind, vertices)"""
-    k = int(rng.integers(7))
+    k = int(rng.integers(8))
+    if k == 7:                                   # convex / star polygon whose straight edges are subdivided: consecutive
+        n = int(rng.integers(3, 9))              # vertices collinear up to rounding (digitised wall outlines)
+        th = np.sort(rng.uniform(0, 2 * math.pi, size=n))
+        r = rng.uniform(0.4, 1.0, size=n) if rng.random() < 0.5 else np.ones(n)
+        B = np.c_[r * np.cos(th), r * np.sin(th)]
+        if rng.random() < 0.5:
+            B = np.round(B, 2)
+        v = []
+        for i in range(n):
+            a, b = B[i], B[(i + 1) % n]
+            m = int(rng.integers(1, 5))
+            for j in range(m):
+                v.append([float(a[0] + (b[0] - a[0]) * j / m), float(a[1] + (b[1] - a[1]) * j / m)])
+        return "subdivided-edges", v
     if k == 6:                                   # rectangle on a decimal lattice (typical R-Z mask sampled on a regular grid)
         h = [0.1, 0.01, 0.05, 0.2, 0.25][int(rng.integers(5))]
         W, H = int(rng.integers(2, 15)), int(rng.integers(2, 15))
@@ -1070,6 +1084,20 @@ def _dist_to_chords(verts, q):
     return best
 
 
+def _collinear_triple(verts, size):
+    """first triple of distinct vertices whose cross product is below 1e-9 * size^2 (collinear to within rounding), or None"""
+    n = len(verts)
+    thr = 1e-9 * size * size
+    for i in range(n):
+        ax, ay = verts[i]
+        for j in range(i + 1, n):
+            ux, uy = verts[j][0] - ax, verts[j][1] - ay
+            for k in range(j + 1, n):
+                if abs(ux * (verts[k][1] - ay) - uy * (verts[k][0] - ax)) <= thr:
+                    return [i, j, k]
+    return None
+
+
 def _run_mask(case, ctx):
     cm = _mod(ctx)
     verts = [[float(a), float(b)] for a, b in case["vertices"]]
@@ -1078,10 +1106,23 @@ def _run_mask(case, ctx):
         return
     ctx.cls("polygon:" + case.get("poly_kind", "?"))
     arg = verts if case.get("container", "list") == "list" else np.array(verts)
-    mask = cm.PolygonMask2D(arg)
     xs = [v[0] for v in verts]
     ys = [v[1] for v in verts]
     size = math.hypot(max(xs) - min(xs), max(ys) - min(ys))
+    try:
+        mask = cm.PolygonMask2D(arg)
+    except RuntimeError as e:
+        if "ear" not in str(e):
+            raise
+        # the documented domain is "a simple polygon": the exact certificate above says this one is
+        ctx.nontrivial()
+        ctx.mon("mask_points")
+        col = _collinear_triple(verts, size)
+        ctx.viol("PolygonMask2D:collinear-vertices:triangulation-raises" if col else "PolygonMask2D:triangulation-raises-on-simple-polygon",
+                 "PolygonMask2D cannot be built for a certified-simple polygon: triangulate2d finds no ear"
+                 + (" (the polygon has three vertices collinear to within rounding)" if col else ""),
+                 error=str(e)[:200], poly_kind=case.get("poly_kind"), n_vertices=len(verts), collinear_triple=col)
+        return
     area2 = sum(Fraction(verts[i][0]) * Fraction(verts[(i + 1) % len(verts)][1]) - Fraction(verts[(i + 1) % len(verts)][0]) * Fraction(verts[i][1])
                 for i in range(len(verts)))
     orient = "ccw" if area2 > 0 else "cw"
@@ -1104,12 +1145,19 @@ def _run_mask(case, ctx):
             key = "PolygonMask2D:%s-point-reported-%s" % ("inside" if want else "outside", "outside" if want else "inside")
             what = "PolygonMask2D differs from exact point-in-polygon"
             chord = _dist_to_chords(verts, q)
-            if want == 1 and got == 0.0 and chord <= 1e-11 * (size + max(abs(t) for t in xs + ys)):
+            on_chord = chord <= 1e-11 * (size + max(abs(t) for t in xs + ys))
+            col = None if (want == 1 and got == 0.0 and on_chord) else _collinear_triple(verts, size)
+            if want == 1 and got == 0.0 and on_chord:
                 # mechanism: the point lies (to rounding) on a segment joining two polygon vertices, i.e. on a possible
                 # internal edge of the triangulation, where both adjacent triangles of the mesh reject it
                 key = "PolygonMask2D:interior-point-on-triangulation-diagonal-reported-outside"
                 what = ("interior point lying within rounding distance of a vertex-to-vertex chord (internal triangulation edge) "
                         "is reported outside: the triangle mesh behind the mask is not watertight on shared edges")
+            elif col:
+                # mechanism: ear clipping with three (nearly) collinear vertices yields degenerate / inverted triangles
+                key = "PolygonMask2D:collinear-vertices:wrong-mask"
+                what = ("PolygonMask2D differs from exact point-in-polygon for a simple polygon that has three vertices collinear "
+                        "to within rounding (vertices %s): the ear-clipping triangulation is invalid" % (col,))
             ctx.viol(key, what, q=q, got=got, want=want, orientation=orient, poly_kind=case.get("poly_kind"),
                      n_vertices=len(verts), dist_to_polygon_edges=_dist_to_edges(verts, q), dist_to_nearest_chord=chord)
 
